@@ -193,6 +193,28 @@ class Ctx:
                         sites=[f"{body.defq} {call.where()} -> {w}" for w in where] or [f"{body.defq} {call.where()}"],
                         site_key=f"{body.defq}:{call.path}")
 
+    def _flows_to_exit(self, body, call):
+        """is the (fallible) result of `call` used: returned, tested by `?` / a switch, or passed on to another call?
+        False means the result is dropped on the floor (assigned to a temp nobody reads, or explicitly discarded)."""
+        derived = self._derived(body, call, (), wide=True)
+        if 0 in derived:
+            return True
+        for bb, j, s in body.stmts():
+            if bb in body.live and s["k"] == "assign" and s["pl"]["l"] == 0 and any(l in derived for l in rvalue_locals(s["rv"])):
+                return True
+        for i in body.live:
+            t = body.blocks[i]["t"]
+            if t["k"] == "switch" and op_local(t["d"]) in derived:
+                return True
+        for c in body.calls:
+            if c is call or c.bb not in body.live:
+                continue
+            if any(op_local(a) in derived for a in c.args if op_local(a) is not None):
+                if c.name in ("drop", "forget"):
+                    continue
+                return True
+        return False
+
     def ok_edges(self, call, polarity="ok", extra_transparent=()):
         """Edges (bb,label) on which the result of `call` has been tested and found
         Ok/Some/Continue/true (polarity 'ok') or the opposite ('bad'); see DESIGN §5
@@ -549,6 +571,9 @@ class Ctx:
         calls = []
         frontier = []
         for r in roots:
+            if not isinstance(r, str):      # a Unit object: exactly that impl
+                frontier.append((r, (r.q,)))
+                continue
             for u in index.get(r, []):
                 frontier.append((u, (r,)))
         if not frontier:
